@@ -267,6 +267,27 @@ def copy_problems(key):
     x, y = m.rating(5.0, 5.0), m.rating(5.0, 5.0)
     if x.id == y.id:
         probs.append('two ratings with equal values share an id')
+    # a season archive: the same player (same id) stored at two moments with different values, copied in one deepcopy
+    p0 = m.rating(20.0, 7.0, 'pat')
+    p1 = copy.deepcopy(p0)
+    p1.mu, p1.sigma = 23.5, 6.25
+    arch = copy.deepcopy([[p0], [p1], [p0, p1]])
+    got = [(q.mu, q.sigma, q.name, q.id) for t in arch for q in t]
+    want = [(q.mu, q.sigma, q.name, q.id) for t in [[p0], [p1], [p0, p1]] for q in t]
+    if got != want:
+        probs.append(f'deepcopy of a structure holding two snapshots of one player (same id): {got} instead of {want}')
+    # ids must be fresh whatever the state of the process-global random module
+    import random
+    st = random.getstate()
+    try:
+        random.seed(12345)
+        i1 = m.rating(1.0, 1.0).id
+        random.seed(12345)
+        i2 = m.rating(1.0, 1.0).id
+    finally:
+        random.setstate(st)
+    if i1 == i2:
+        probs.append('rating ids repeat when the caller re-seeds the global random module (ids are not fresh)')
     return probs
 
 
